@@ -13,6 +13,21 @@ func NewLexer(expression string) Lexer {
 	}
 }
 
+// skipSpace returns the position of the first byte at or after p that is not
+// whitespace.
+func (l *Lexer) skipSpace(p int) int {
+	for p < len(l.expression) {
+		switch l.expression[p] {
+		case '\t', '\n', '\r', ' ':
+			p++
+		default:
+			return p
+		}
+	}
+
+	return p
+}
+
 func (l *Lexer) Next(t *Token) error {
 	if l.position == len(l.expression) {
 		*t = Token{
@@ -136,6 +151,17 @@ func (l *Lexer) Next(t *Token) error {
 
 		return nil
 	case '.':
+		// whitespace between the dot and the * of an object wildcard is not significant
+		if star := l.skipSpace(start + sz); star < len(l.expression) && l.expression[star] == '*' {
+			l.position = star + 1
+			*t = Token{
+				Type:  ObjectWildcardToken,
+				Value: l.expression[start:l.position],
+			}
+
+			return nil
+		}
+
 		nr, nsz, err := l.decodeRune(start + sz)
 		if err == nil && nr == '*' {
 			l.position += sz + nsz
@@ -247,6 +273,19 @@ func (l *Lexer) Next(t *Token) error {
 
 		return nil
 	case '[':
+		// whitespace around the * of an array wildcard is not significant
+		if star := l.skipSpace(start + sz); star < len(l.expression) && l.expression[star] == '*' {
+			if end := l.skipSpace(star + 1); end < len(l.expression) && l.expression[end] == ']' {
+				l.position = end + 1
+				*t = Token{
+					Type:  ArrayWildcardToken,
+					Value: l.expression[start:l.position],
+				}
+
+				return nil
+			}
+		}
+
 		nr, nsz, err := l.decodeRune(start + sz)
 		if err == nil {
 			if nr == '*' {
